@@ -24,6 +24,7 @@ import (
 	"github.com/tikv/client-go/v2/txnkv/transaction"
 	"github.com/tikv/client-go/v2/txnkv/txnlock"
 	"github.com/tikv/client-go/v2/util"
+	"github.com/tikv/client-go/v2/verifsim/refkv"
 	"github.com/tikv/client-go/v2/verifsim/simkit"
 )
 
@@ -78,6 +79,7 @@ type World struct {
 	mvcc    mocktikv.MVCCStore
 	dumper  simkit.Dumper
 	backend simkit.Backend
+	ref     *refkv.Server
 	Stores  []*tikv.KVStore
 	sc      *Scenario
 	Hist    []*TxnHist
@@ -141,6 +143,11 @@ func newWorld(s *simkit.Sim, sc *Scenario) (*World, error) {
 	case "M", "":
 		w.backend = mockFront{mocktikv.NewRPCClient(cluster, mvcc, nil)}
 		w.dumper = mvcc
+	case "R":
+		srv := refkv.NewServer(cluster)
+		w.backend = srv
+		w.dumper = srv
+		w.ref = srv
 	default:
 		return nil, fmt.Errorf("unknown backend %q", sc.Backend)
 	}
@@ -492,7 +499,21 @@ func (w *World) runTxn(p *TxnProg, h *TxnHist) {
 	}
 	w.Net.SetMark(p.Client, fmt.Sprintf("end%d", p.ID))
 	h.EndInv = s.Stamp()
-	if p.End == "rollback" {
+	end := p.End
+	if w.sc.Backend == "R" && p.Pessimistic && end == "commit" {
+		// TiKV (and the reference backend) skip the conflict and existence checks for keys a pessimistic
+		// transaction writes without holding a lock on them - the protocol relies on the application never
+		// doing that where a conflict is possible - and with async commit / 1PC such a write can even land
+		// below a newer version. Programs whose lock step failed therefore end with a rollback.
+		for k := range h.Buf {
+			if _, ok := h.Locked[k]; !ok {
+				end = "rollback"
+				w.Sim.Count("probe.pessimistic-unlocked-write-rolled-back")
+				break
+			}
+		}
+	}
+	if end == "rollback" {
 		h.EndKind = "rollback"
 		_ = txn.Rollback()
 	} else {
